@@ -492,6 +492,12 @@ type Clause struct {
 	Name string // optional label: "ensures [label] expr"
 }
 
+type WitnessBinding struct {
+	Name string
+	E    Expr
+	Text string
+}
+
 type LoopSpec struct {
 	Ordinal    int
 	Anchors    []string
@@ -520,6 +526,8 @@ type Contract struct {
 	Trusted    bool
 	MayPanic   bool
 	NoSafety   bool // skip implicit panic obligations (stated in evidence)
+	Wraps      bool // signed +,- wrap exactly (no overflow obligations)
+	Witness    map[string][]WitnessBinding // ensures label -> witnesses for its existentials
 	Loops      []*LoopSpec
 	Ghost      []Param // ghost parameters (lemma-style universally quantified inputs)
 	Line       int
@@ -570,7 +578,7 @@ type SpecDB struct {
 
 var clauseKeywords = map[string]bool{"pred": true, "func": true, "lemma": true, "interface": true, "property": true, "mode": true,
 	"requires": true, "ensures": true, "modifies": true, "inline": true, "trusted": true, "loop": true, "invariant": true,
-	"decreases": true, "maypanic": true, "forall": false, "ghost": true, "method": true, "assume": true, "vars": true, "nosafety": true, "pure": true}
+	"decreases": true, "maypanic": true, "forall": false, "ghost": true, "method": true, "assume": true, "vars": true, "nosafety": true, "pure": true, "witness": true, "wraps": true}
 
 // LoadSpecs reads every verif_contracts.go under the repo plus the assumed
 // contracts under /verif/contracts/assumed.
@@ -615,7 +623,7 @@ func (db *SpecDB) loadFile(path, pkg string, assumed bool) error {
 		line     int
 	}
 	var raws []rawClause
-	for i, ln := range strings.Split(string(data), "\n") {
+	for i, ln := range expandTemplates(strings.Split(string(data), "\n")) {
 		t := strings.TrimSpace(ln)
 		if !strings.HasPrefix(t, "//@") {
 			continue
@@ -837,6 +845,33 @@ func (db *SpecDB) loadFile(path, pkg string, assumed bool) error {
 			if curC != nil {
 				curC.NoSafety = true
 			}
+		case "wraps":
+			if curC != nil {
+				curC.Wraps = true
+			}
+		case "witness":
+			// witness <label> L = expr, R = expr
+			if curC == nil {
+				return fmt.Errorf("%s:%d: witness outside func", path, rc.line)
+			}
+			f := strings.SplitN(rc.rest, " ", 2)
+			if len(f) != 2 {
+				return fmt.Errorf("%s:%d: witness needs a label and bindings", path, rc.line)
+			}
+			if curC.Witness == nil {
+				curC.Witness = map[string][]WitnessBinding{}
+			}
+			for _, part := range splitTopLevel(f[1], ',') {
+				kv := strings.SplitN(part, "=", 2)
+				if len(kv) != 2 {
+					return fmt.Errorf("%s:%d: bad witness binding %q", path, rc.line, part)
+				}
+				e, err := ParseExpr(strings.TrimSpace(kv[1]))
+				if err != nil {
+					return fmt.Errorf("%s:%d: %v", path, rc.line, err)
+				}
+				curC.Witness[f[0]] = append(curC.Witness[f[0]], WitnessBinding{Name: strings.TrimSpace(kv[0]), E: e, Text: strings.TrimSpace(kv[1])})
+			}
 		case "loop":
 			if curC == nil {
 				return fmt.Errorf("%s:%d: loop outside func", path, rc.line)
@@ -924,3 +959,45 @@ func parseParams(s string) ([]Param, error) {
 	}
 	return out, nil
 }
+
+// expandTemplates duplicates the lines between "//@ template T A B C" and
+// "//@ end" once per listed value, replacing {T} (and {t}: lower-cased; and
+// {T:elem}: the Go element type of the generated array kinds). Every instance
+// is verified on its own; none is assumed from another.
+func expandTemplates(lines []string) []string {
+	var out []string
+	for i := 0; i < len(lines); i++ {
+		t := strings.TrimSpace(lines[i])
+		if strings.HasPrefix(t, "//@ template ") {
+			f := strings.Fields(strings.TrimPrefix(t, "//@ template "))
+			if len(f) < 2 {
+				out = append(out, lines[i])
+				continue
+			}
+			name, vals := f[0], f[1:]
+			var block []string
+			j := i + 1
+			for ; j < len(lines); j++ {
+				if strings.TrimSpace(lines[j]) == "//@ end" {
+					break
+				}
+				block = append(block, lines[j])
+			}
+			for _, v := range vals {
+				for _, b := range block {
+					b = strings.ReplaceAll(b, "{"+name+"}", v)
+					b = strings.ReplaceAll(b, "{"+strings.ToLower(name)+"}", strings.ToLower(v))
+					b = strings.ReplaceAll(b, "{"+name+":elem}", templElem[v])
+					out = append(out, b)
+				}
+			}
+			// keep line numbering roughly aligned is not needed; continue after "end"
+			i = j
+			continue
+		}
+		out = append(out, lines[i])
+	}
+	return out
+}
+
+var templElem = map[string]string{"Float": "float64", "Integer": "int64", "Unsigned": "uint64", "String": "string", "Boolean": "bool"}
